@@ -220,6 +220,41 @@ def generic_probe_part(ctx, c, key, outkey, gen, expected, sizes, theorem, label
                             'how': 'SC3_MODE=%s PYTHONPATH=$SC3_REPO:/verif/harness python harness/impl/c05_kscript.py <in.json with {"%s":[probe]}> out.json' % (mode, key)}))
 
 
+def multi_probe_part(ctx, c, specs):
+    """several probe classes in ONE library process per mode (process start-up dominates the quick tier)
+    specs: (key, outkey, gen, expected, {mode: n}, theorem, label)"""
+    for mode in ('nrt', 'rt'):
+        payload, gens = {'seed': ctx.seed}, []
+        for key, outkey, gen, expected, sizes, theorem, label in specs:
+            n = sizes.get(mode, 0)
+            if n:
+                prs = [gen(ctx.rng, k, mode == 'rt') for k in range(n)]
+                payload[key] = prs
+                gens.append((key, outkey, prs, expected, theorem, label))
+        if not gens:
+            continue
+        allres = ctx.impl('c05_kscript', payload, mode=mode, timeout=900)
+        for key, outkey, prs, expected, theorem, label in gens:
+            res = allres.get(outkey, [])
+            c.evaluations += len(prs)
+            nrep = 0
+            for pr, o in zip(prs, res + [{'fatal': 'not run: the runner stopped at a stuck item'}] * (len(prs) - len(res))):
+                bad = expected(pr, o, mode)
+                if bad is None:
+                    c.count('%s:%s not completed in time (machine load); not compared' % (mode, label))
+                    continue
+                c.count('%s:%s:%s' % (mode, label, pr.get('route', '') or pr.get('host', '') or ''))
+                c.nontriv((label, mode, json.dumps(pr, sort_keys=True)))
+                if bad and nrep < 2:
+                    nrep += 1
+                    what, got, exp = bad[0]
+                    c.failures.append(Failure(
+                        'correspondence', '%s %s: %s is %s, expected %s. Probe: %s' % (mode.upper(), label, what, got, exp, json.dumps(pr)),
+                        theorem=theorem, found_input=True,
+                        replay={'probe': pr, 'observed': o, 'differences': bad, 'mode': mode, 'payload_key': key,
+                                'how': 'SC3_MODE=%s PYTHONPATH=$SC3_REPO:/verif/harness python harness/impl/c05_kscript.py <in.json with {"%s":[probe]}> out.json' % (mode, key)}))
+
+
 def alongside_part(ctx, c):
     generic_probe_part(ctx, c, 'alongside', 'alongside_out', K.gen_alongside, lambda pr, o, mode: K.alongside_expected(pr, o),
                        (('nrt', ctx.n(8, 80)), ('rt', ctx.n(8, 48))), 'kth_resume_time',
